@@ -213,6 +213,15 @@ theorem dot_write_invalid_order (A : Arr) (names : List String) (pruned : Bool) 
   ⟨writeDotIO_bad A names pruned script h0 hn, writeDotIO_good A names pruned script h0 hn,
     fun s hs => hs ▸ writeDotIO_fail_first A names pruned s h0 hn⟩
 
+/-- a sink with a byte budget (accepts `b` bytes in total — a short write where the budget ends — then fails every
+    call): whatever the division of the text into `write_all` pieces, the call returns `Ok` iff the budget covers the
+    whole text, and otherwise `Err` with exactly the first `b` bytes in the sink. A sink error in the LAST chunk of a
+    text of any size is therefore never swallowed. -/
+theorem dot_write_budget (pieces : List (List UInt8)) (b : Nat) :
+    budgetPieces b pieces =
+      if b < pieces.flatten.length then (false, pieces.flatten.take b) else (true, pieces.flatten) :=
+  budgetPieces_spec pieces b
+
 /-! ## non-vacuity -/
 
 /-- the invalid diagram of `B.AlgoEq3Dot.discrepancy_example`: one variable, node 2 decides on variable 5; the sink
